@@ -184,7 +184,7 @@ Example C05_history_nonvacuous :
   /\ squeeze "data//a" = "data/a"
   /\ h_snaps (run_hist_fs squeeze squeeze ex_ops) = [(2, "metadata/manifests/l2")]
   /\ map fst (h_store (run_hist_fs squeeze squeeze ex_ops)) =
-       ["metadata/inflight/t.inflight"; "data/t"; "data/b"; "metadata/manifests/m2"; "metadata/manifests/l2"; "data/a"; "metadata/manifests/m1"]
+       ["metadata/inflight/data/t.inflight"; "data/t"; "data/b"; "metadata/manifests/m2"; "metadata/manifests/l2"; "data/a"; "metadata/manifests/m1"]
   (* the same history with the alias commit of C05_alias_spelling_refuted appended: under a normpath that tells "data//a" apart the
      commit is refused and the collection changes nothing the retained snapshot names *)
   /\ run_hist_fs squeeze squeeze (alias_ops) = run_hist_fs squeeze squeeze [nth 0 alias_ops (HExpire (fun _ => true)); HDeleteSnapshot 1; nth 3 alias_ops (HExpire (fun _ => true))]
